@@ -35,6 +35,11 @@ check("C09", "property test (token soup, corpus mutation, nesting ladders) in cr
       "Asked of the optimised build (debug frames are several times larger). A worker death is confirmed in a fresh process before it is reported; hangs by the 60 s watchdog + two fresh re-runs at 240 s.",
       "DESIGN.md §3 C09")
 
+check("C10", "metamorphic property test (layout rewrites at lexer token boundaries; blanked-Debug fingerprint of the AST)",
+      "Every corpus program that parses is rewritten by 1-8 random layout-preserving rewrites (line comments, inline block comments, blank lines, trailing spaces, backslash continuations, redundant parentheses around an operand) placed at token boundaries from the lexer's own stream; the Debug rendering of the Module with position numbers blanked must be unchanged; the same text parsed twice and in a fresh process must render identically.",
+      "The AST's PartialEq is not the oracle (it is position-sensitive for some nodes); rewrites are never placed inside string or doc-comment tokens. Corpus-based: covers the constructs the repository's own .er files use.",
+      "DESIGN.md §3 C10")
+
 NOT_APPLICABLE = {}
 
 def main():
